@@ -84,8 +84,10 @@ pub struct DeqNode<T> { p: std::marker::PhantomData<T> }
 impl<T> DeqNode<T> {
     pub uninterp spec fn node_id(&self) -> int;
     pub uninterp spec fn elem(&self) -> T;
+//@@ SIG file=src/common/deque.rs owner=DeqNode name=new
     #[verifier::external_body]
     pub fn new(element: T) -> (r: Self) ensures r.elem() == element { unimplemented!() }
+//@@ END
 }
 impl<T> std::fmt::Debug for DeqNode<T> {
     #[verifier::external_body]
@@ -125,30 +127,54 @@ impl<K> EntryInfo<K> {
     pub uninterp spec fn sp_w(&self) -> u32;
     pub uninterp spec fn sp_ao(&self) -> Option<KeyDeqNodeAo<K>>;
     pub uninterp spec fn sp_wo(&self) -> Option<KeyDeqNodeWo<K>>;
+//@@ SIG file=src/common/concurrent/entry_info.rs owner=EntryInfo name=is_admitted
     #[verifier::external_body]
     pub fn is_admitted(&self) -> (r: bool) ensures r == self.sp_admitted() { unimplemented!() }
+//@@ END
+//@@ SIG file=src/common/concurrent/entry_info.rs owner=EntryInfo name=set_admitted
     #[verifier::external_body]
     pub fn set_admitted(&self, value: bool) { unimplemented!() }
+//@@ END
+//@@ SIG file=src/common/concurrent/entry_info.rs owner=EntryInfo name=is_dirty
     #[verifier::external_body]
     pub fn is_dirty(&self) -> (r: bool) ensures r == self.sp_dirty() { unimplemented!() }
+//@@ END
+//@@ SIG file=src/common/concurrent/entry_info.rs owner=EntryInfo name=set_dirty
     #[verifier::external_body]
     pub fn set_dirty(&self, value: bool) { unimplemented!() }
+//@@ END
+//@@ SIG file=src/common/concurrent/entry_info.rs owner=EntryInfo name=policy_weight
     #[verifier::external_body]
     pub fn policy_weight(&self) -> (r: u32) ensures r == self.sp_w() { unimplemented!() }
+//@@ END
+//@@ SIG file=src/common/concurrent/entry_info.rs owner=EntryInfo name=access_order_q_node
     #[verifier::external_body]
     pub fn access_order_q_node(&self) -> (r: Option<KeyDeqNodeAo<K>>) ensures r == self.sp_ao() { unimplemented!() }
+//@@ END
+//@@ SIG file=src/common/concurrent/entry_info.rs owner=EntryInfo name=set_access_order_q_node
     #[verifier::external_body]
     pub fn set_access_order_q_node(&self, node: Option<KeyDeqNodeAo<K>>) { unimplemented!() }
+//@@ END
+//@@ SIG file=src/common/concurrent/entry_info.rs owner=EntryInfo name=take_access_order_q_node
     #[verifier::external_body]
     pub fn take_access_order_q_node(&self) -> (r: Option<KeyDeqNodeAo<K>>) ensures r == self.sp_ao() { unimplemented!() }
+//@@ END
+//@@ SIG file=src/common/concurrent/entry_info.rs owner=EntryInfo name=write_order_q_node
     #[verifier::external_body]
     pub fn write_order_q_node(&self) -> (r: Option<KeyDeqNodeWo<K>>) ensures r == self.sp_wo() { unimplemented!() }
+//@@ END
+//@@ SIG file=src/common/concurrent/entry_info.rs owner=EntryInfo name=set_write_order_q_node
     #[verifier::external_body]
     pub fn set_write_order_q_node(&self, node: Option<KeyDeqNodeWo<K>>) { unimplemented!() }
+//@@ END
+//@@ SIG file=src/common/concurrent/entry_info.rs owner=EntryInfo name=take_write_order_q_node
     #[verifier::external_body]
     pub fn take_write_order_q_node(&self) -> (r: Option<KeyDeqNodeWo<K>>) ensures r == self.sp_wo() { unimplemented!() }
+//@@ END
+//@@ SIG file=src/common/concurrent/entry_info.rs owner=EntryInfo name=unset_q_nodes
     #[verifier::external_body]
     pub fn unset_q_nodes(&self) { unimplemented!() }
+//@@ END
 }
 
 /// THE LIST (src/common/deque.rs): assumed here, checked by the Kani window harnesses
@@ -158,36 +184,50 @@ pub struct Deque<T> { k: std::marker::PhantomData<T> }
 impl<T> Deque<T> {
     pub uninterp spec fn view(&self) -> Seq<N>;
     pub uninterp spec fn sp_region(&self) -> CacheRegion;
+//@@ SIG file=src/common/deque.rs owner=Deque name=new
     #[verifier::external_body]
     pub fn new(region: CacheRegion) -> (r: Self) ensures r@.len() == 0, r.sp_region() == region { unimplemented!() }
+//@@ END
+//@@ SIG file=src/common/deque.rs owner=Deque name=region
     #[verifier::external_body]
     pub fn region(&self) -> (r: CacheRegion) ensures r == self.sp_region() { unimplemented!() }
+//@@ END
+//@@ SIG file=src/common/deque.rs owner=Deque name=contains
     #[verifier::external_body]
     pub fn contains(&self, node: &DeqNode<T>) -> (b: bool) ensures b == has_id(self@, node.node_id()) { unimplemented!() }
+//@@ END
+//@@ SIG file=src/common/deque.rs owner=Deque name=move_to_back
     #[verifier::external_body]
     pub unsafe fn move_to_back(&mut self, node: NonNull<DeqNode<T>>)
         requires has_id(old(self)@, nid(node)), //@ [C08]
         ensures final(self)@ == moved_to_back(old(self)@, index_of_id(old(self)@, nid(node))), final(self).sp_region() == old(self).sp_region()
     { unimplemented!() }
+//@@ END
+//@@ SIG file=src/common/deque.rs owner=Deque name=unlink_and_drop
     #[verifier::external_body]
     pub unsafe fn unlink_and_drop(&mut self, node: NonNull<DeqNode<T>>)
         requires has_id(old(self)@, nid(node)), //@ [C08,C11]
         ensures final(self)@ == old(self)@.remove(index_of_id(old(self)@, nid(node))), final(self).sp_region() == old(self).sp_region()
     { unimplemented!() }
+//@@ END
 }
 impl<K> Deque<KeyHashDate<K>> {
+//@@ SIG file=src/common/deque.rs owner=Deque name=push_back types=loose
     #[verifier::external_body]
     pub fn push_back(&mut self, node: Box<DeqNode<KeyHashDate<K>>>) -> (r: NonNull<DeqNode<KeyHashDate<K>>>)
         ensures !has_id(old(self)@, nid(r)), final(self).sp_region() == old(self).sp_region(),
             final(self)@ == old(self)@.push(N { id: nid(r), key: kid_arc(node.elem().key), hash: node.elem().hash })
     { unimplemented!() }
+//@@ END
 }
 impl<K> Deque<KeyDate<K>> {
+//@@ SIG file=src/common/deque.rs owner=Deque name=push_back types=loose
     #[verifier::external_body]
     pub fn push_back(&mut self, node: Box<DeqNode<KeyDate<K>>>) -> (r: NonNull<DeqNode<KeyDate<K>>>)
         ensures !has_id(old(self)@, nid(r)), final(self).sp_region() == old(self).sp_region(),
             final(self)@ == old(self)@.push(N { id: nid(r), key: kid_arc(node.elem().key), hash: 0 })
     { unimplemented!() }
+//@@ END
 }
 } // mod env
 
